@@ -55,8 +55,12 @@ func (f *Frame) mapInfo(t types.Type) *mapKeys {
 	ks, _, ok := scalarSortOf(mt.Key(), f.E.Mode)
 	if !ok {
 		if _, isIface := mt.Key().Underlying().(*types.Interface); isIface {
-			f.E.fail("maps with interface keys are outside the subset")
+			// interface keys: (tag, payload) packed by the abstract bijection ikey (spec library ikey)
+			ks, ok = IntS, true
+			f.E.Uses["ikey"] = true
 		}
+	}
+	if !ok {
 		f.E.fail("map key type %s is outside the subset", mt.Key())
 	}
 	tk := typeKey(t)
@@ -66,6 +70,41 @@ func (f *Frame) mapInfo(t types.Type) *mapKeys {
 		mk.vleaves = leavesOf(mt.Elem(), f.E.Mode)
 	}
 	return mk
+}
+
+// keyTerm: the SMT term of a map key value (interfaces are packed with ikey)
+func (f *Frame) keyTerm(k *Val) *Term {
+	if k.K == VIface {
+		f.E.Uses["ikey"] = true
+		return App("ikey", IntS, k.Tag, k.X)
+	}
+	if k.K != VScalar {
+		f.E.fail("map key value outside the subset")
+	}
+	return k.X
+}
+
+// keyTermFor: as keyTerm, for a key of map type mt given in a contract: a concrete value
+// used as key of an interface-keyed map is boxed first (as the Go conversion would)
+func (f *Frame) keyTermFor(mt types.Type, k *Val) *Term {
+	if m, ok := mt.Underlying().(*types.Map); ok && k.K == VScalar && k.T != nil {
+		if _, isIface := m.Key().Underlying().(*types.Interface); isIface {
+			if _, already := k.T.Underlying().(*types.Interface); !already {
+				f.E.Uses["ikey"] = true
+				return App("ikey", IntS, IntLit(int64(typeTag(k.T))), k.X)
+			}
+		}
+	}
+	return f.keyTerm(k)
+}
+
+// keyVal: the Go value of a key term
+func (f *Frame) keyVal(k *Term, t types.Type) *Val {
+	if _, isIface := t.Underlying().(*types.Interface); isIface {
+		f.E.Uses["ikey"] = true
+		return &Val{K: VIface, T: t, Tag: App("ikey_tag", IntS, k), X: App("ikey_pay", IntS, k)}
+	}
+	return &Val{K: VScalar, T: t, X: k}
 }
 
 func (f *Frame) mapDom(mk *mapKeys, m *Term, st *State) *Term {
@@ -103,17 +142,14 @@ func (f *Frame) mapInitEmpty(r *Term, t types.Type) {
 
 func (f *Frame) mapLookup(in *ssa.Lookup, m *Val) {
 	mk := f.mapInfo(in.X.Type())
-	k := f.val(in.Index)
-	if k.K != VScalar {
-		f.E.fail("map key value outside the subset")
-	}
-	has := And(Neq(m.X, IntLit(0)), Select(f.mapDom(mk, m.X, f.st), k.X))
+	kt := f.keyTerm(f.val(in.Index))
+	has := And(Neq(m.X, IntLit(0)), Select(f.mapDom(mk, m.X, f.st), kt))
 	zero := f.zeroVal(mk.vt)
 	var val *Val
 	if len(mk.vleaves) == 0 {
 		val = zero
 	} else {
-		stored := f.mapValue(mk, m.X, k.X, f.st)
+		stored := f.mapValue(mk, m.X, kt, f.st)
 		val = f.iteVal(has, stored, zero)
 	}
 	val = f.nameVal(val, in.Name())
@@ -155,15 +191,13 @@ func (f *Frame) mapUpdate(in *ssa.MapUpdate) {
 	m := f.val(in.Map)
 	k := f.val(in.Key)
 	v := f.val(in.Value)
-	if k.K != VScalar {
-		f.E.fail("map key value outside the subset")
-	}
+	kt := f.keyTerm(k)
 	if f.nopanic {
 		f.E.addObl("nopanic.nilmap", f.E.P.exprTextAt(in.Pos(), isExprNode), f.curGuard, Neq(m.X, IntLit(0)), f.where(in.Pos()), f.props())
 	} else {
 		f.assume(Neq(m.X, IntLit(0)), "assignment to non-nil map")
 	}
-	f.mapStore(in.Map.Type(), m.X, k.X, v)
+	f.mapStore(in.Map.Type(), m.X, kt, v)
 }
 
 func (f *Frame) mapDelete(mt types.Type, m, k *Term) {
@@ -229,7 +263,7 @@ func (f *Frame) rangeNext(in *ssa.Next) {
 		f.st = f.st.Clone()
 		f.st.Set(rs.visKey, visS, f.E.name(Ite(ok, Store(vis, k, True), vis), f.prefix+"vis"))
 		f.st.Set(rs.visKey+"$n", IntS, f.E.name(Ite(ok, Add(nvis, IntLit(1)), nvis), f.prefix+"nvis"))
-		kval := &Val{K: VScalar, T: tup.At(1).Type(), X: k}
+		kval := f.keyVal(k, tup.At(1).Type())
 		var vval *Val
 		if isInvalidType(tup.At(2).Type()) {
 			vval = &Val{K: VScalar, T: tup.At(2).Type(), X: IntLit(0)}
@@ -295,6 +329,9 @@ func (f *Frame) builtin(in *ssa.Call, b *ssa.Builtin) {
 				n := Ite(Eq(x.X, IntLit(0)), IntLit(0), f.mapLen(mk, x.X, f.st))
 				f.set(in, &Val{K: VScalar, T: in.Type(), X: n})
 				f.assume(Ge(f.vals[in].X, IntLit(0)), "len >= 0")
+				// Go map semantics: the length is the number of keys, so a map that has a key is not empty
+				kb := Bound{Name: "k!len" + in.Name(), S: mk.ksort}
+				f.assume(Forall([]Bound{kb}, Implies(And(Neq(x.X, IntLit(0)), Select(f.mapDom(mk, x.X, f.st), Var(kb.Name, kb.S))), Ge(n, IntLit(1)))), "a map with a key has len >= 1")
 				return
 			}
 			if x.X.S.K == SString {
@@ -331,7 +368,7 @@ func (f *Frame) builtin(in *ssa.Call, b *ssa.Builtin) {
 	case "delete":
 		m := f.val(args[0])
 		k := f.val(args[1])
-		f.mapDelete(args[0].Type(), m.X, k.X)
+		f.mapDelete(args[0].Type(), m.X, f.keyTerm(k))
 	case "print", "println":
 	case "min", "max":
 		cur := f.val(args[0]).X
